@@ -282,10 +282,19 @@ theorem InvG.mono {st : St} (h : InvG EO st) : InvG EO' st :=
 
 end
 
+/-- the shape of an object layer that `get_object_layer_env` and `find_object_field_thunk` rely on:
+    a field without an environment of its own, or an assert, needs the base environment of the layer;
+    a field without thunk has an expression -/
+structure LayerShape (layer : Layer) : Prop where
+  fieldBase : ∀ f ∈ layer.fields, f.baseEnv = none → layer.baseEnv.isSome = true
+  assertBase : layer.asserts ≠ [] → layer.baseEnv.isSome = true
+  fieldExpr : ∀ f ∈ layer.fields, f.thunk = none → f.expr.isSome = true
+
 /-- the store invariant -/
 structure Inv (st : St) : Prop where
   wf : EnvsWf st.envs
   g : InvG (EnvOk st.envs) st
+  shape : ∀ (o : Nat) (ob : Obj), st.objs[o]? = some ob → ∀ layer ∈ ob.layers, LayerShape layer
 
 /-! ### Store order -/
 
@@ -320,10 +329,12 @@ theorem S.of_eq {a b : St} (he : b.envs = a.envs) (hf : b.funcs = a.funcs) (ho :
 
 /-! ### Errors -/
 
-/-- the error is not one of the three scoping panics -/
+/-- the error is not one of the three scoping panics, nor one of the four panics of the object
+    primitives (unset environment, layer index, missing base environment, missing field expression) -/
 def Good : Err → Prop
   | .internal m => m ≠ "variable not found" ∧ m ≠ "get_object on an environment without object" ∧
-      m ≠ "get_top_object on an environment without object"
+      m ≠ "get_top_object on an environment without object" ∧ m ≠ "env data not set" ∧
+      m ≠ "bad layer index" ∧ m ≠ "layer without base env" ∧ m ≠ "field without expression"
   | _ => True
 
 /-- the error is not a (modelled) Rust panic -/
@@ -398,7 +409,7 @@ theorem close_block (hI : Inv s) (hpar : ∀ p, fin.parent = some p → p < s.en
   have he : st.envs = s.envs.push hollow := hext.envs
   have key : ∀ e Γ, EnvOk s.envs e Γ → EnvOk (st.envs.setIfInBounds s.envs.size fin) e Γ :=
     fun e Γ hk => block_envOk hext hv hp ho hk
-  refine ⟨⟨key, hext.funcsOld, fun o ob hx => ⟨ob, by rw [show st.objs = s.objs from hext.objs]; exact hx, rfl⟩⟩, ?_, ?_⟩
+  refine ⟨⟨key, hext.funcsOld, fun o ob hx => ⟨ob, by rw [show st.objs = s.objs from hext.objs]; exact hx, rfl⟩⟩, ?_, ?_, ?_⟩
   · intro e x p hx hpar'
     rw [Array.getElem?_setIfInBounds] at hx
     split at hx
@@ -429,6 +440,9 @@ theorem close_block (hI : Inv s) (hpar : ∀ p, fin.parent = some p → p < s.en
     · intro o ob hx l hl
       rw [show st.objs = s.objs from hext.objs] at hx
       exact (hI.g.objs o ob hx l hl).mono key
+  · intro o ob hx l hl
+    rw [show st.objs = s.objs from hext.objs] at hx
+    exact hI.shape o ob hx l hl
 
 end
 
